@@ -523,7 +523,7 @@ func init() {
 		Technique: "history monitor with fresh-state reference: every Execute of a history on one locked OS thread (pooled Runtime reused, GC off) must equal the same call executed on a freshly built and parsed Set right after the pools were drained; parsed templates hashed before/after",
 		Rule: "each case is one history of 8-32 Execute calls over a pool of 4-7 generated programs, each also through up to two other entry points on the same Set (failures anywhere: in yields with content, ranges, if-let, includes, try) plus 27 fixed templates: executions failing deep inside a block yielded with content below if-let and range (ending in an error, a function error, or a string panic that escapes Execute), try bodies, and probes exposing '.', 'yield content', isset() of names bound earlier, try/catch and block defaults, and a field promoted through an embedded pointer (nil in one unit, set in another) of a struct type minted per history, one parsed template with computed include names executed with four different variable bindings, an include of a template that does not parse, ranges left early by a return followed by ranges over empty and nil collections; " +
 			"a fifth of the calls write into a writer that fails after 0-39 bytes; oracle: (bytes written, error text) of every call equals the fresh-state reference of the same (template, variables, writer) triple, obtained on a Set parsed from scratch after replacing the Runtime and ranger pools (hook VerifDrainPools; fallback two GC cycles); template trees hashed by reflection before and after; " +
-			"non-trivial = a failed execution immediately followed by another execution on the reused Runtime; distinct by (failing unit, writer failed, following unit); evidence records how often consecutive executions saw the same *Runtime",
+			"non-trivial = a failed execution immediately followed by another execution on the reused Runtime; distinct by (failing unit, writer failed, following unit); evidence records how often consecutive executions saw the same *Runtime Since waves 8/9: units calling Go functions with pointer parameters on literals, dump() beside variables named like Set globals followed by a template rendering the globals, one template over two same-named struct types with swapped fields (expected result spelt out), the Blocks section of dump() for seven blocks.",
 		Assumptions: []string{"generated programs are deterministic (single-entry maps, fresh channels and VarMaps per execution)", "not run under the race detector (it drops pool items at random)"},
 		NCases:      c10n,
 		RunCase:     c10run,
